@@ -6,6 +6,7 @@ import Heathcliff.Proofs.GenRns8
 import Heathcliff.Proofs.GenRns11
 import Heathcliff.Proofs.GenRns14
 import Heathcliff.Proofs.GenRns16
+import Heathcliff.Proofs.GenRns19
 
 /- Property theorems only (statements verbatim; proofs are the helper lemmas of Heathcliff/Proofs). -/
 namespace HC.C10
@@ -233,5 +234,17 @@ theorem gen_rnsbase_decompose_residues : type_of% @HC.gr_rnsbase_decompose_resid
 theorem gen_rnsbase_decompose_array_eq : type_of% @HC.gr_rnsbase_decompose_array_eq := @HC.gr_rnsbase_decompose_array_eq
 /-- END TO END: position `i·count + j` = `value_j mod q_i` -/
 theorem gen_rnsbase_decompose_array_residues : type_of% @HC.gr_rnsbase_decompose_array_residues := @HC.gr_rnsbase_decompose_array_residues
+
+/-! ### translator tie, phase 4k: `BaseConverter::exact_convey_array`, `RNSTool::decrypt_mod_t` (floats erased; Proofs/GenRns17.lean – GenRns19.lean) -/
+
+/-- `BaseConverter::exact_convey_array` generated from the source — its f64 pipeline replaced by the abstract function input `roundQ : List Nat → Nat` of
+    the scaled residues of one coefficient (table-declared reading, pinned to the exact float statements) — = the model's `exactConvey` on every
+    column, PROVIDED `roundQ` returns a u64 equal to the exact rational rounding `exactRound` on every coefficient -/
+theorem gen_exact_convey_array_eq : type_of% @HC.gr_exact_convey_array_eq := @HC.gr_exact_convey_array_eq
+/-- `RNSTool::decrypt_mod_t` generated from the source = `RNSTool.decryptModT` (same proviso) -/
+theorem gen_decrypt_mod_t_eq : type_of% @HC.gr_decrypt_mod_t_eq := @HC.gr_decrypt_mod_t_eq
+/-- END TO END (BGV decryption): the generated `decrypt_mod_t` returns the centred residue of `X j` modulo t (composition with C01's
+    `c01p_decryptModT_of_crt`), same proviso about the floating-point rounding -/
+theorem gen_decrypt_mod_t_centred : type_of% @HC.gr_decrypt_mod_t_centred := @HC.gr_decrypt_mod_t_centred
 
 end HC.C10
